@@ -51,3 +51,16 @@ Definition zp_prss_zero (p : Z) (m : nat) (tbl : list (list nat * list Z)) : lis
   map (fun i => zval (@prss_zero_share (ZpOps p) (zp_of_nat p) m i (map fst tbl) (fun S => zl p (lookupZs tbl S))))
       (seq 0 m).
 Definition zp_f_S_i (p : Z) (m i : nat) (S : list nat) : Z := zval (@f_S_i (ZpOps p) (zp_of_nat p) m i S).
+
+Require Import MPyC.Proto.
+(** C11: share-level replay *)
+Definition lookup_tape (p : Z) (tapes : list (nat * list Z)) (d : nat) : list (Zp p) :=
+  match find (fun e => Nat.eqb (fst e) d) tapes with Some e => zl p (snd e) | None => [] end.
+Definition zp_reshare (p : Z) (m t uci : nat) (tapes : list (nat * list Z)) (sigma : list Z) : list Z :=
+  zv (@reshare (ZpOps p) (zp_of_nat p) m t uci (lookup_tape p tapes) (zl p sigma)).
+Definition zp_mul_proto (p : Z) (m t uci : nat) (tapes : list (nat * list Z)) (s1 s2 : list Z) : list Z :=
+  zv (@mul_proto (ZpOps p) (zp_of_nat p) m t uci (lookup_tape p tapes) (zl p s1) (zl p s2)).
+Definition zp_output_at (p : Z) (m t' r : nat) (sigma : list Z) : Z :=
+  zval (@output_at (ZpOps p) (zp_of_nat p) m t' r (zl p sigma)).
+Definition zp_split_col (p : Z) (m : nat) (c : list Z) (s : Z) : list Z :=
+  zv (@split_col (ZpOps p) (zp_of_nat p) (zl p c) (mkZp p s) m).
